@@ -53,10 +53,13 @@ def generate(seed: int, tier: str = "quick") -> dict:
         cfg["bufsize"] = r_sch.choice(sched.BUFSIZES)
     elif r_sch.random() < 0.12:
         tr = {"kind": "bytesio"}
+    elif r_sch.random() < 0.06:
+        tr = {"kind": "pipe"}
     elif r_sch.random() < 0.25:
         # a stream that hands out at most `cap` bytes per call: frames larger than the cap are
         # lost to "stream terminated" errors - under every mask alike
         tr = {"kind": "capfile", "cap": r_sch.choice((3, 7, 16, 20, 21, 22, 24, 40, 64))}
+    cfg["handler_kind"] = r_cfg.choice(("function", "function", "returns_false", "returns_value", "method"))
     return {"seed": seed, "config": cfg, "frames": frames, "transport": tr, "style": style, "pre_faults": dict(pre)}
 
 
